@@ -8,6 +8,7 @@
  * over a ghost view of the parsed stream.json (trusted, see plan):
  *   - a key is present or not; a present value is a number, a string or neither
  *   - json_object_[dot]get_value: the value, NULL if the key is absent
+ *   - json_object_[dot]has_value: 1 iff the key is present
  *   - json_number / json_object_dotget_number: the number, 0 if absent / not a number
  *   - json_object_dotget_string: the string, NULL if absent / not a string
  *   - json_parse_file_with_comments: NULL if the file cannot be read or parsed
@@ -41,6 +42,8 @@ JSON_Value *json_object_dotget_value(const JSON_Object *o, const char *name)
 	return (JSON_Value *) &g_valcell[k];
 }
 JSON_Value *json_object_get_value(const JSON_Object *o, const char *name) { return json_object_dotget_value(o, name); }
+int json_object_dothas_value(const JSON_Object *o, const char *name) { return json_object_dotget_value(o, name) != NULL; }
+int json_object_has_value(const JSON_Object *o, const char *name) { return json_object_dotget_value(o, name) != NULL; }
 double json_value_get_number(const JSON_Value *v)
 {
 	for (int k = 0; k < K_N; k++)
@@ -86,6 +89,7 @@ const char *json_object_dotget_string(const JSON_Object *o, const char *name)
 	__CPROVER_requires(DIAG_PRE)
 
 int w_present, w_is_num, w_is_str, w_parse_ok, w_is_object, w_had_meta;
+int w_num_is1, w_num_is0;    /* integer view of w_num (the runner passes integer witnesses only) */
 double w_num;
 
 #if !defined(C12_META_THREAD) && !defined(C12_META_PROC) && !defined(C12_META_SYSTEM) && !defined(C12_META_LOOM)
@@ -147,7 +151,8 @@ int c_thread_load_metadata(struct thread *thread, struct stream *s)
 __CPROVER_requires(__CPROVER_is_fresh(thread, sizeof(*thread)))
 REQ_LOADED_STREAM(s)
 __CPROVER_requires(WBIND(thread_load_metadata, w_had_meta == (thread->meta != NULL) &&
-	w_present == g_j[K_FINISHED].present && w_is_num == g_j[K_FINISHED].is_num && w_num == g_j[K_FINISHED].num))
+	w_present == g_j[K_FINISHED].present && w_is_num == g_j[K_FINISHED].is_num && w_num == g_j[K_FINISHED].num &&
+	w_num_is1 == (g_j[K_FINISHED].num == 1.0) && w_num_is0 == (g_j[K_FINISHED].num == 0.0)))
 __CPROVER_assigns(thread->meta, DIAG_FRAME, g_died)
 __CPROVER_ensures(__CPROVER_return_value == 0 || __CPROVER_return_value == -1)
 /* returns at all only for a stream with metadata (otherwise die) */
